@@ -71,6 +71,19 @@ def handle (cfg : Api.Config) (line : String) : String :=
     (match unhex e, readCanon d with
      | some expr, some doc => showVal (search cfg expr doc)
      | _, _ => "bad-request")
+  | ["ST", _, _, _, e, d] =>
+    -- C18: the typed model on a typed document, shown through its JSON form
+    (match unhex e, readTyped d with
+     | some expr, some doc =>
+       (match (compile cfg expr : Res (Node F64v)) with
+        | .ok ast =>
+          (match Typed.evalT capFirst ast doc with
+           | .ok r => showVal (.ok (Typed.view r))
+           | .err x => showVal (.err x)
+           | .panic s => showVal (.panic s))
+        | .err x => showVal (.err x)
+        | .panic s => showVal (.panic s))
+     | _, _ => "bad-request")
   | ["C", e] =>
     (match unhex e with
      | some expr => showRes dump (compile cfg expr)
